@@ -369,21 +369,35 @@ def rand_chain(rng, L, nops=3, coeffs=DYADIC, charges=True, allow_zero=False, po
 
 
 def rand_graph(rng, L, idbase=0, maxw=3, nops=3, charges=True, pool=None):
-    """Random consistent layered graph with parallel edges, multi-operator edges, non-contiguous ids."""
+    """Random consistent layered graph with parallel edges, multi-operator edges, non-contiguous ids. In half of the cases node ids are NOT monotone along
+    the layers (random permutation, negative ids), the node list handed to OpGraph is shuffled, and edge ids / insertion order are shuffled as well."""
     widths = [1] + [int(rng.integers(1, maxw + 1)) for _ in range(L - 1)] + [1]
+    n = sum(widths)
+    ids = []
     nid = idbase
+    for _ in range(n):
+        ids.append(nid)
+        nid += int(rng.integers(1, 3))
+    hostile = rng.random() < 0.5
+    if hostile:
+        ids = [ids[int(k)] for k in rng.permutation(n)]
+        if rng.random() < 0.3 and idbase == 0:
+            ids = [x - 3 for x in ids]             # some negative ids (-1 and -2 hash alike in CPython)
     layers = []
     nodes = []
+    k = 0
     for w in widths:
         lay = []
         for _ in range(w):
             q = int(rng.integers(-1, 2)) if charges else 0
-            nodes.append(ptn.OpGraphNode(nid, [], [], q))
-            lay.append(nid)
-            nid += int(rng.integers(1, 3))
+            nodes.append(ptn.OpGraphNode(ids[k], [], [], q))
+            lay.append(ids[k])
+            k += 1
         layers.append(lay)
+    if hostile:
+        nodes = [nodes[int(j)] for j in rng.permutation(len(nodes))]
     g = ptn.OpGraph(nodes, [], [layers[0][0], layers[-1][0]])
-    eid = int(rng.integers(0, 5))
+    specs = []
     for l in range(L):
         pairs = set()
         for a in layers[l]:
@@ -396,8 +410,17 @@ def rand_graph(rng, L, idbase=0, maxw=3, nops=3, charges=True, pool=None):
         for a, b in pairs:
             nop = int(rng.integers(1, 3))
             opics = [(int(rng.integers(0, nops)) if pool is None else int(pool[int(rng.integers(0, min(nops, len(pool))))]), float(rng.choice([-1, -.5, .5, 1, 2]))) for _ in range(nop)]
-            g.add_connect_edge(ptn.OpGraphEdge(eid, [a, b], opics))
-            eid += int(rng.integers(1, 3))
+            specs.append(([a, b], opics))
+    eids = []
+    eid = int(rng.integers(0, 5)) + (idbase if idbase else 0)
+    for _ in specs:
+        eids.append(eid)
+        eid += int(rng.integers(1, 3))
+    if hostile:
+        eids = [eids[int(j)] for j in rng.permutation(len(eids))]
+        specs = [specs[int(j)] for j in rng.permutation(len(specs))]
+    for e, (ab, opics) in zip(eids, specs):
+        g.add_connect_edge(ptn.OpGraphEdge(e, ab, opics))
     return g
 
 
